@@ -13,11 +13,24 @@
  *        R0 R1 Ra RA read(0|1|all|all+1)   L lapout   X restart   h0 h1 halfrate   hp halfrate_p   K<p> packet_blocksize   D<p> idheader
  *        cb cd ci cc  clears (may repeat).   Ops whose object was never initialised / is already cleared are skipped and reported as '~'.
  * At the end every object still alive is cleared (twice).
+ * --heapcap <bytes>: a request that would take the library's live heap above this ends the case at once (C=1, P=live+request); 0 = no cap.
  * output: <idx> R=<rc,rc,...> L=<live bytes before final clears> E=<live blocks after clears> P=<peak bytes> X=<exit called 0/1> [N=<strings enumerated>] */
 #define WA_SLOTS 8192
+/* heap-cap gate: common.h's allocator wrappers reach the real allocator through these three names; we route them through a gate that
+ * refuses (and ends the case) when the library's live heap would pass --heapcap bytes.  The request itself is the verdict (P=live+request). */
+#define __real_malloc c02_gate_malloc
+#define __real_calloc c02_gate_calloc
+#define __real_realloc c02_gate_realloc
 #include "common.h"
+#undef __real_malloc
+#undef __real_calloc
+#undef __real_realloc
+void *__real_malloc(size_t); void *__real_calloc(size_t,size_t); void *__real_realloc(void*,size_t);
 #include "codec_internal.h"
 #include <setjmp.h>
+#include <sys/mman.h>
+#include <sys/stat.h>
+#include <fcntl.h>
 
 typedef struct { unsigned char *p; int len; } pkt;
 typedef struct { pkt *pk; int n; } pset;
@@ -30,19 +43,38 @@ void __real_exit(int); void __real_abort(void);
 void __wrap_exit(int c){ g_exit_called=1; if(g_exit_armed)longjmp(g_exit_jmp,1); __real_exit(c); }
 void __wrap_abort(void){ g_exit_called=1; if(g_exit_armed)longjmp(g_exit_jmp,1); __real_abort(); }
 
+static long g_heapcap=0; static int g_capped=0; static unsigned long long g_cap_peak=0;
+static void cap_check(size_t a,size_t b){
+  unsigned long long n;
+  if(!wa_on||g_heapcap<=0||!g_exit_armed)return;
+  n=(b&&a>(size_t)-1/b)?~0ULL>>1:(unsigned long long)a*b;
+  if(n>(unsigned long long)g_heapcap||(unsigned long long)wa_live_bytes+n>(unsigned long long)g_heapcap){
+    g_capped=1; g_cap_peak=(unsigned long long)wa_live_bytes+n; if(g_cap_peak>(~0ULL>>1))g_cap_peak=~0ULL>>1;
+    longjmp(g_exit_jmp,2);
+  }
+}
+void *c02_gate_malloc(size_t n){ cap_check(n,1); return __real_malloc(n); }
+void *c02_gate_calloc(size_t a,size_t b){ cap_check(a,b); return __real_calloc(a,b); }
+void *c02_gate_realloc(void *p,size_t n){ cap_check(n,1); return __real_realloc(p,n); }
+
 static void on_alarm(int s){ char b[96]; int n=snprintf(b,sizeof(b),"%ld TIMEOUT enum=%ld\n",g_idx,g_enum); fflush(stdout); if(write(1,b,n)<0){} _exit(3); }
 void __asan_on_error(void){ char b[96]; int n=snprintf(b,sizeof(b),"\nCASE %ld enum=%ld\n",g_idx,g_enum); if(write(2,b,n)<0){} }
 
+/* the table is mapped, not read: a worker that runs a handful of cases out of a 60 MB table touches only the packets it uses */
 static void load_table(const char *path){
-  FILE *f=fopen(path,"rb"); int s,i; if(!f){ fprintf(stderr,"no table\n"); exit(2); }
-  if(fread(&nsets,4,1,f)!=1)exit(2);
+  int fd=open(path,O_RDONLY); struct stat st; const unsigned char *m; size_t o=0; int s,i;
+  if(fd<0||fstat(fd,&st)<0||st.st_size<4){ fprintf(stderr,"no table\n"); exit(2); }
+  m=(const unsigned char*)mmap(NULL,st.st_size,PROT_READ,MAP_PRIVATE,fd,0);
+  if(m==MAP_FAILED){ fprintf(stderr,"no table\n"); exit(2); }
+  memcpy(&nsets,m,4); o=4;
   sets=(pset*)__real_calloc(nsets,sizeof(pset));
   for(s=0;s<nsets;s++){
-    if(fread(&sets[s].n,4,1,f)!=1)exit(2);
+    if(o+4>(size_t)st.st_size)exit(2);
+    memcpy(&sets[s].n,m+o,4); o+=4;
     sets[s].pk=(pkt*)__real_calloc(sets[s].n,sizeof(pkt));
-    for(i=0;i<sets[s].n;i++){ int l; if(fread(&l,4,1,f)!=1)exit(2); sets[s].pk[i].len=l; sets[s].pk[i].p=(unsigned char*)__real_malloc(l+1); if(l&&fread(sets[s].pk[i].p,1,l,f)!=(size_t)l)exit(2); }
+    for(i=0;i<sets[s].n;i++){ int l; if(o+4>(size_t)st.st_size)exit(2); memcpy(&l,m+o,4); o+=4; if(l<0||o+l>(size_t)st.st_size)exit(2); sets[s].pk[i].len=l; sets[s].pk[i].p=(unsigned char*)(m+o); o+=l; }
   }
-  fclose(f);
+  close(fd);
 }
 
 /* builds the packet operand into buf (exact-size heap block so that ASan sees overreads); returns length or -1 */
@@ -112,7 +144,7 @@ static void run_ops(pset *S,char **ops,int nops,const unsigned char *es,int el,c
 
 int main(int argc,char **argv){
   const char *table=NULL,*cases=NULL; int timeout=10,i; FILE *cf; char *line=NULL; size_t cap=0;
-  for(i=1;i<argc;i++){ if(!strcmp(argv[i],"--table"))table=argv[++i]; else if(!strcmp(argv[i],"--cases"))cases=argv[++i]; else if(!strcmp(argv[i],"--timeout"))timeout=atoi(argv[++i]); }
+  for(i=1;i<argc;i++){ if(!strcmp(argv[i],"--table"))table=argv[++i]; else if(!strcmp(argv[i],"--cases"))cases=argv[++i]; else if(!strcmp(argv[i],"--timeout"))timeout=atoi(argv[++i]); else if(!strcmp(argv[i],"--heapcap"))g_heapcap=atol(argv[++i]); }
   if(!table||!cases)return 2;
   load_table(table);
   cf=fopen(cases,"r"); if(!cf)return 2;
@@ -125,13 +157,14 @@ int main(int argc,char **argv){
     while((tok=strtok_r(NULL," \n",&sv))&&nops<255){ if(!strncmp(tok,"ALL",3)){ char *c; all=(int)strtol(tok+3,&c,10); if(*c==':')fixed0=atoi(c+1); } else ops[nops++]=tok; }
     if(set<0||set>=nsets){ printf("%ld BADCASE\n",idx); continue; }
     memset(&it,0,sizeof(it)); it.it_value.tv_sec=timeout; setitimer(ITIMER_VIRTUAL,&it,NULL);
-    g_exit_called=0;
+    g_exit_called=0; g_capped=0; g_cap_peak=0;
     if(all<0){
       wa_reset(); wa_on=1;
       g_exit_armed=1;
       if(!setjmp(g_exit_jmp))run_ops(&sets[set],ops,nops,NULL,0,rbuf,sizeof(rbuf),&live);
       g_exit_armed=0; wa_on=0; peak=wa_peak_bytes; endblocks=wa_live_blocks;
-      printf("%ld R=%s L=%ld E=%ld P=%ld X=%d\n",idx,rbuf[0]?rbuf:"-",live,endblocks,peak,g_exit_called);
+      if(g_capped&&(long)g_cap_peak>peak)peak=(long)g_cap_peak;
+      printf("%ld R=%s L=%ld E=%ld P=%ld X=%d C=%d\n",idx,rbuf[0]?rbuf:"-",live,endblocks,peak,g_exit_called,g_capped);
     }else{
       /* enumerate every byte string of length `all`; report an aggregate: distinct rc-signatures are hashed, failures counted */
       /* ALL<len>:<b0> fixes the first byte (shards the enumeration); the remaining bytes are enumerated */
@@ -145,6 +178,7 @@ int main(int argc,char **argv){
         g_exit_armed=0; wa_on=0;
         if(wa_live_blocks)bad_end++;
         if(wa_peak_bytes>maxpeak)maxpeak=wa_peak_bytes;
+        if(g_capped&&(long)g_cap_peak>maxpeak)maxpeak=(long)g_cap_peak;
         h_bytes(&sig,rbuf,strlen(rbuf));
         { int k; for(k=0;k<nsig;k++)if(!strcmp(sigs[k],rbuf))break; if(k==nsig&&nsig<64){ strncpy(sigs[nsig],rbuf,127); nsig++; } }
         nenum++;
